@@ -1040,7 +1040,7 @@ pub fn exec(case: &Case, ex: &mut Exec) {
     }
 }
 
-const MKINDS: [&str; 6] = ["vec", "bytesmut", "arr", "boxed", "arrayvec", "smallvec"];
+const MKINDS: [&str; 9] = ["vec", "bytesmut", "arr", "boxed", "arrayvec", "smallvec", "sref", "refvec", "boxvec"];
 
 fn gen_member(rng: &mut Rng, packed_role: Option<u8>) -> String {
     let kind = *rng.pick(&MKINDS);
@@ -1049,7 +1049,7 @@ fn gen_member(rng: &mut Rng, packed_role: Option<u8>) -> String {
         _ => rng.range(0, 6) as usize,
     };
     let len = match (kind, packed_role) {
-        ("arr" | "boxed", _) => cap,
+        ("arr" | "boxed" | "sref", _) => cap,
         (_, Some(0)) => cap,
         (_, Some(2)) => 0,
         _ => rng.range(0, cap as u64) as usize,
